@@ -48,7 +48,7 @@ POP_POOL = ["π1", "π2", "Pi1", "Pi2", "Pi5", "π", "π_1", "Pi_4", "A1", "T"]
 def _case(draw):
     depth = draw(st.sampled_from([1, 2, 2, 3, 3, 4]))
     fam = draw(st.integers(0, 2))
-    spec = draw(exprgen.expr_specs(depth=depth, names=NAMES, q=True, zero=fam == 0, one=fam != 2, mixed_worlds=True))
+    spec = draw(exprgen.expr_specs(depth=depth, names=NAMES, q=True, zero=fam == 0, one=fam != 2, mixed_worlds=True, reflexive_do=True))
     if draw(st.booleans()):
         # other names from the parser's table, including the ones that look alike (Pi1 / π1) -- populations too
         vs = draw(st.lists(st.sampled_from(NAME_POOL), min_size=len(NAMES), max_size=len(NAMES), unique=True))
